@@ -250,6 +250,7 @@ enum Unit {
 
 const USER_DATA: usize = 0x1234;
 const STOPPED: &str = "The rewriter has been stopped.";
+const UNINIT: &str = "Not all fields of the struct were initialized";
 
 /// One observed result: the token diffed with the model, and the full value compared C vs Rust.
 #[derive(Clone, Debug, PartialEq)]
@@ -288,7 +289,7 @@ enum CVal {
     Selector(*mut Selector),
     Rewriter(*mut lolhtml::rewriter::HtmlRewriter),
     Str(RawStr),
-    Iter { p: *mut std::slice::Iter<'static, Attribute<'static>>, last: *const Attribute<'static>, epoch: usize },
+    Iter { p: *mut std::slice::Iter<'static, Attribute<'static>>, last: *const Attribute<'static>, epoch: usize, len0: usize, pos: usize },
 }
 
 struct CRun {
@@ -314,22 +315,26 @@ fn mk_ctx(run: *mut CRun, hid: usize, idx: usize) -> *mut c_void {
 }
 
 static TAKES: std::sync::atomic::AtomicUsize = std::sync::atomic::AtomicUsize::new(0);
+static SETS: std::sync::atomic::AtomicUsize = std::sync::atomic::AtomicUsize::new(0);
 
-/// Run `f` and report whether it set LAST_ERROR on this thread, without disturbing the slot: the
-/// slot was set by `f` iff it is `Some` afterwards and either was `None` before, or holds a different
-/// allocation (errors.rs:20 allocates the new message before the old one is dropped), or a
-/// `take_last_error` happened meanwhile.
+/// Run `f` and report whether LAST_ERROR of this thread was set during it, without disturbing the
+/// slot: it was iff it is `Some` afterwards and either was `None` before, or holds a different allocation
+/// (errors.rs:20 allocates the new message before the old one is dropped), or a nested probe saw a set /
+/// a `take_last_error` happened meanwhile (after which the allocator may hand out the old address again).
 fn with_err_probe<T>(f: impl FnOnce() -> T) -> (T, Option<String>) {
     use std::sync::atomic::Ordering::SeqCst;
     let before = lolhtml::errors::LAST_ERROR.with(|e| e.borrow().as_ref().map(|s| s.as_ptr() as usize));
-    let takes = TAKES.load(SeqCst);
+    let (takes, sets) = (TAKES.load(SeqCst), SETS.load(SeqCst));
     let r = f();
     let after = lolhtml::errors::LAST_ERROR.with(|e| e.borrow().as_ref().map(|s| (s.as_ptr() as usize, s.to_string())));
     let set = match (before, after) {
         (_, None) => None,
         (None, Some((_, m))) => Some(m),
-        (Some(b), Some((a, m))) => (a != b || TAKES.load(SeqCst) != takes).then_some(m),
+        (Some(b), Some((a, m))) => (a != b || TAKES.load(SeqCst) != takes || SETS.load(SeqCst) != sets).then_some(m),
     };
+    if set.is_some() {
+        SETS.fetch_add(1, SeqCst);
+    }
     (r, set)
 }
 
@@ -674,32 +679,36 @@ unsafe fn c_unit_op(run: *mut CRun, unit: Unit, op: &COp) {
             let p = lol_html_attributes_iterator_get(e);
             r.c.log.push(obs(if p.is_null() { "p0" } else { "p1" }, ""));
             let epoch = r.c.epoch;
-            r.bind(*dst, CVal::Iter { p: p as *mut _, last: std::ptr::null(), epoch }, "iter");
+            let len0 = (&*e).attributes().len();
+            r.bind(*dst, CVal::Iter { p: p as *mut _, last: std::ptr::null(), epoch, len0, pos: 0 }, "iter");
         }
         COp::IterNext { it } => {
             let Unit::Element(e) = unit else { panic!("bad-case nx") };
-            let Some(CVal::Iter { p, epoch, .. }) = r.vars.get(it) else { panic!("bad-case nx var") };
-            let (p, epoch) = (*p, *epoch);
+            let Some(CVal::Iter { p, epoch, len0, pos, .. }) = r.vars.get(it) else { panic!("bad-case nx var") };
+            let (p, epoch, len0, pos) = (*p, *epoch, *len0, *pos);
             if epoch != r.c.epoch {
-                // the model says: use after free. Confirm on the real objects without dereferencing.
+                // the model says: use after free. Confirm on the real objects without dereferencing:
+                // the vector was collected with capacity == len, so a changed length means it was
+                // reallocated (push) or had an element dropped and the tail shifted (retain).
                 let it_words: [usize; 2] = std::ptr::read(p as *const [usize; 2]);
-                let cur = (&*e).attributes().as_ptr_range();
-                let (cs, ce) = (cur.start as usize, cur.end as usize);
-                let dangling = !(it_words[0] >= cs && it_words[0] <= ce && it_words[1] == ce);
+                let cur = (&*e).attributes();
+                let (cs, ce) = (cur.as_ptr_range().start as usize, cur.as_ptr_range().end as usize);
+                let stale_range = !(it_words[0] >= cs && it_words[0] <= ce && it_words[1] == ce);
                 r.c.fault = Some("FAULT use-after-free".into());
-                if dangling {
+                if cur.len() != len0 && stale_range {
                     r.c.oracle.push(format!(
-                        "C17:iter-invalidated attribute iterator [{:#x},{:#x}) no longer matches the attribute vector [{:#x},{:#x}) after set/remove_attribute; lol_html.h permits the call",
-                        it_words[0], it_words[1], cs, ce
+                        "C17:iter-invalidated attribute iterator created over {len0} attribute(s), advanced {pos} time(s), used after set/remove_attribute left {} attribute(s): its range no longer matches the attribute vector; lol_html.h permits the call",
+                        cur.len()
                     ));
                 }
                 return;
             }
             let a = lol_html_attributes_iterator_next(p as *mut _);
             r.c.log.push(obs(if a.is_null() { "p0" } else { "p1" }, ""));
-            if let Some(CVal::Iter { last, .. }) = r.vars.get_mut(it) {
+            if let Some(CVal::Iter { last, pos, .. }) = r.vars.get_mut(it) {
                 if !a.is_null() {
                     *last = a as *const _;
+                    *pos += 1;
                 }
             }
         }
@@ -711,15 +720,20 @@ unsafe fn c_unit_op(run: *mut CRun, unit: Unit, op: &COp) {
             r.c.log.push(obs("v", ""));
         }
         COp::AttrStrGet { dst, it, f } => {
-            let Some(CVal::Iter { last, epoch, .. }) = r.vars.get(it) else { panic!("bad-case ag var") };
-            let (a, epoch) = (*last, *epoch);
+            let Some(CVal::Iter { last, epoch, len0, .. }) = r.vars.get(it) else { panic!("bad-case ag var") };
+            let (a, epoch, len0) = (*last, *epoch, *len0);
             if a.is_null() {
                 r.c.fault = Some("NOTPERMITTED attribute pointer is NULL".into());
                 return;
             }
             if epoch != r.c.epoch {
                 r.c.fault = Some("FAULT use-after-free".into());
-                r.c.oracle.push("C17:iter-invalidated attribute pointer used after set/remove_attribute; lol_html.h permits the call".into());
+                if let Unit::Element(e) = unit {
+                    let now = (&*e).attributes().len();
+                    if now != len0 {
+                        r.c.oracle.push(format!("C17:iter-invalidated attribute pointer obtained from an iterator over {len0} attribute(s) used after set/remove_attribute left {now}; lol_html.h permits the call"));
+                    }
+                }
                 return;
             }
             let s = match *f {
@@ -1192,8 +1206,9 @@ unsafe fn r_unit_op(run: *mut RRun, unit: Unit, op: &COp) {
         }
         COp::Streaming { f, h } => match h {
             // documented: "If `streaming_writer` is `NULL`, an error will be reported"
-            SArg::Null => r.c.log.push(code(-1)),
-            SArg::Mk { reserved_null: false, .. } => r.c.log.push(code(-1)),
+            // (`CStreamingHandlerError::Uninitialized`, /repo 9f8617f)
+            SArg::Null => r.fail("-1", UNINIT.into()),
+            SArg::Mk { reserved_null: false, .. } => r.fail("-1", UNINIT.into()),
             SArg::Mk { has_write_all, has_drop, script, .. } => {
                 r.c.drops.push(0);
                 r.c.ran.push(0);
@@ -1201,7 +1216,7 @@ unsafe fn r_unit_op(run: *mut RRun, unit: Unit, op: &COp) {
                 let st = Box::new(RStreamer { run, script: *script, idx, has_drop: *has_drop });
                 if !*has_write_all {
                     drop(st);
-                    (&mut *run).c.log.push(code(-1));
+                    (&mut *run).fail("-1", UNINIT.into());
                     return;
                 }
                 match (unit, *f) {
